@@ -11,17 +11,121 @@ sys.path.insert(0, HERE)
 PY = "/venv/bin/python"
 
 # id -> (technique, level text, level note, DESIGN section)
+T_HYP = "Hypothesis-generated cases"
 CHECKS = {
+    "C01": (
+        "Hypothesis pair/group generation by common-prefix length + exhaustive enumeration of all 2^w inputs (real anonymizers with 32-w host bits, width-generic base class at widths 4..12) + bulk one-anonymizer runs; oracle: common-prefix-length relation / level-wise bijection",
+        "Generated-input search against the algebraic relation cpl(anon(a),anon(b)) == cpl(a,b) over salts, host bits, preserved prefix/network lists and both families; sub-spaces of up to 2^16 addresses are enumerated completely (permutation and every depth checked), the 32/128-bit spaces are sampled at every common-prefix length.",
+        "Exploration: absence of violations in the full 32/128-bit space is not established. Trusted: Python ints, ipaddress for parsing CIDRs.",
+        "4/C01",
+    ),
+    "C02": (
+        "Hypothesis round trips (integer level with pre-loaded/foreign-construction histories, file level with constructed token lines, CLI in two processes); oracle: inverse relation and a canonicalising expectation built from the generator's own token table",
+        "Round-trip oracle on distinct forward/undo instances (cold, pre-loaded by generated request histories, or separate interpreter processes through the real command line), both directions, plus file-level expectation computed by the harness from the tokens it generated (masks/preserved as written, mask-shaped images stay).",
+        "Exploration over generated inputs. IPv6 tokens with IPv4 tail excluded while known finding C06/v6-with-v4-tail is open.",
+        "4/C02",
+    ),
+    "C03": (
+        "Hypothesis rule-based state machine (anonymize/undo/line/dump/permuted replay with arguments fed back from earlier outputs) against a fresh-instance reference; bulk long histories; foreign-construction histories; file-set partition/order metamorphic check",
+        "Model-based generation of request histories on one anonymizer; after every request the answer must equal that of a fresh anonymizer with the same salt/options (no re-implementation of the hash), whole histories replayed permuted, files together vs separately vs reverse order.",
+        "Exploration; histories up to 60 steps plus bulk runs of up to 14000 addresses. The reference is netconan's own class with a cold cache.",
+        "4/C03",
+    ),
+    "C04": (
+        "Hypothesis addresses constructed inside/at the edge of/just outside preserved prefixes, both families for host bits; oracle: integer membership and bit-suffix predicates; exhaustive grid of default-prefix edge addresses x salts",
+        "Validity predicates over generated (configuration, address): membership in every preserved prefix kept both ways (default list written out in the harness), low B bits unchanged, leading bits independent of the suffix.",
+        "Exploration over generated configurations and addresses; edge grid enumerated completely for the default list.",
+        "4/C04",
+    ),
+    "C05": (
+        "exhaustive enumeration of the 64 masks and their 2048 one-bit perturbations + Hypothesis text lines and boundary-biased inside/outside addresses; oracle: reference mask predicate, byte-identical preserved tokens, inverse-image membership",
+        "Mask predicate compared on the complete set of masks and one-bit neighbours; preserved/mask tokens must come out as written from generated lines (after an optional earlier anonymizer with other options saw the same tokens); collision freedom via inverse images of preserved addresses and images of boundary-biased outside addresses.",
+        "Exploration outside the exhaustive mask set. Token boundaries themselves are C06's subject.",
+        "4/C05",
+    ),
+    "C06": (
+        "exhaustive enumeration of short strings over a boundary alphabet (contexts x address/near-miss cores, atom strings) + Hypothesis constructed lines; oracle: independent token scanner (no regular expression shared with netconan) + fresh-anonymizer image",
+        "Differential against an independent scanner that decides, per maximal token, whether it is a standalone valid address and what its canonical replacement text is; both directions (every address replaced as a whole, nothing else changed), through anonymize_ip_addr and through FileAnonymizer.anonymize_io.",
+        "Exploration + complete enumeration of the listed short-string spaces. Mixed super-tokens where the statement and the token rule disagree are skipped and counted.",
+        "4/C06",
+    ),
+    "C07": (
+        "Hypothesis-generated runs of recognised secret lines instantiated twice with different secret values (metamorphic equality of output and INFO+ log) + positional/survival oracle + standalone $1$/$9$ tokens among arbitrary keywords",
+        "Metamorphic relation: two runs that differ only in secret values (same format classes, same equality pattern) must give byte-identical output and identical INFO+ log records; positional oracle: the secret's slot holds something else, nothing of the secret survives.",
+        "Exploration over the harness's table of recognised line forms (read from the pattern groups and the test templates). Known findings listed in known_findings.txt are excluded by key and counted.",
+        "4/C07",
+    ),
+    "C08": (
+        "Hypothesis histories of secret-bearing lines with a small secret pool and $9$ re-encodings (harness encoder); model: dict secret-identity -> pseudonym-identity checked in both directions after every line",
+        "Model-based check of one run: equal secrets (after independent $9$ decoding) must map to equal pseudonyms and different secrets to different pseudonyms whatever the line form, quoting or interleaving.",
+        "Exploration. Pseudonym identity of a $9$ replacement is its plaintext per the harness's own decoder.",
+        "4/C08",
+    ),
+    "C09": (
+        "Hypothesis single-secret lines over every format class/parameter + exhaustive class x parameter grid; oracle: independent decoders (own type-7 and $9$ codecs, passlib identify) and exact context preservation",
+        "Validity predicate on each replacement decided by decoders that do not share code with netconan; output must equal the input with exactly the secret span replaced.",
+        "Exploration; passlib is in the trusted base (as in the property).",
+        "4/C09",
+    ),
+    "C10": (
+        "Hypothesis word lists (overlapping, mixed case) x lines x reserved sets, repeated in interpreter processes with different PYTHONHASHSEED; oracle: case-insensitive survival scan + exact expected output for non-overlapping lists",
+        "Survival scan over the output for every listed word (only allowed inside tokens equal to a reserved word), reserved tokens untouched, pseudonym a function of (salt, matched text) across lines/instances/lists/hash seeds.",
+        "Exploration over the word alphabet stated in the property.",
+        "4/C10",
+    ),
+    "C11": (
+        "Hypothesis AS-number lists weighted to block boundaries x lines with standalone/embedded occurrences x salts; oracle: independent digit-run scanner + block predicate + consistency across instances",
+        "Independent scanner of maximal digit runs: listed runs are replaced by a number of the same block that depends on (salt, number) only; every other character unchanged.",
+        "Exploration; boundary numbers x many salts enumerated as a grid.",
+        "4/C11",
+    ),
+    "C12": (
+        "Hypothesis texts with unusual white space and terminators x all 16 feature subsets; oracles: line structure, per-token conservation, prefix-closure/permutation/insertion metamorphic relations",
+        "Structure and locality relations on generated multi-line texts built from benign vocabulary with sensitive items at known positions.",
+        "Exploration.",
+        "4/C12",
+    ),
+    "C13": (
+        "batch differential across interpreter processes with PYTHONHASHSEED 0..7/random + Hypothesis state machine of foreign anonymizer constructions with a fresh-process reference + no-salt reproduction",
+        "Same (salt, options, input) must give byte-identical output across repetitions, processes/hash seeds and histories of earlier anonymizers in the process.",
+        "Exploration; time dependence is only observable as a difference between runs.",
+        "4/C13",
+    ),
+    "C14": (
+        "Hypothesis Unicode lines + form-mutation generator (backslashes, malformed hashes, near-IPv6, long bracket runs) + token soup, all feature subsets and salts; atheris coverage-guided campaign in the thorough tier; oracle: no exception, one line out per line in, no truncated file",
+        "Totality: any exception escaping anonymize_io / any missing output line is a violation, keyed by exception type and innermost netconan frame.",
+        "Exploration; lines up to several thousand characters.",
+        "4/C14",
+    ),
+    "C15": (
+        "Hypothesis multi-line inputs x all 16 feature subsets x {anonymize, undo}; oracle: differential against the chain of single-feature anonymizers in the fixed order",
+        "Differential: multi-feature output == secrets -> IPv6 -> IPv4 -> words -> AS numbers applied by single-feature anonymizers with the same salt/options.",
+        "Exploration.",
+        "4/C15",
+    ),
+    "C16": (
+        "Hypothesis directory trees with injected faults (undecodable bytes at generated offsets, output path occupied) materialised in scratch directories; oracles: mirror-set equality, input bytes/mtimes, four entry points agree, fault isolation differential",
+        "File-system level generated-input search with fault injection at every position in walk order.",
+        "Exploration; fault kinds limited to the two the property names.",
+        "4/C16",
+    ),
+    "C17": (
+        "Hypothesis multi-file inputs with both families, all spellings, masks and preserved addresses x host-bit counts; oracle: dump parsed and compared with positional (input token, output token) pairs and with a fresh anonymizer",
+        "The dump must list every replaced address exactly once with the replacement used, no value twice on either side, each pair agreeing with the mapping function.",
+        "Exploration.",
+        "4/C17",
+    ),
     "C18": (
-        "exhaustive enumeration (65 salts x 256 code points x 7 table positions) + Hypothesis round-trip, "
-        "differential against an independent $9$ decoder, and mutation-generated malformed strings",
-        "Generated-input search with four oracles: round trip through netconan's own decoder, structural "
-        "well-formedness of the encoder's output, agreement of juniper_decrypt with an independent decoder on "
-        "every well-formed string, ValueError-only on malformed strings. The single-character grid is enumerated "
-        "completely; longer plaintexts, arbitrary salts and malformed strings are sampled.",
-        "Trusted: the harness's own $9$ codec (vf/ref/juniper9.py, known-answer tested against Crypt::Juniper vectors). "
-        "Absence of violations outside the enumerated grid is not established.",
+        "exhaustive enumeration (65 salts x 256 code points x 7 table positions) + Hypothesis round-trip, differential against an independent $9$ decoder, and mutation-generated malformed strings",
+        "Generated-input search with four oracles: round trip through netconan's own decoder, structural well-formedness of the encoder's output, agreement of juniper_decrypt with an independent decoder on every well-formed string, ValueError-only on malformed strings. The single-character grid is enumerated completely; longer plaintexts, arbitrary salts and malformed strings are sampled.",
+        "Trusted: the harness's own $9$ codec (vf/ref/juniper9.py, known-answer tested against Crypt::Juniper vectors). Absence of violations outside the enumerated grid is not established.",
         "4/C18",
+    ),
+    "C19": (
+        "Hypothesis argument vectors and config files around generated input trees; oracles: rejection-before-write, placement equivalence (CLI/config/both), defaults, --preserve-private-addresses equivalence, CLI == library differential",
+        "Metamorphic and differential relations over generated option placements, run in-process through netconan.netconan.main and (thorough) through subprocesses.",
+        "Exploration; option values restricted to what the config-file syntax can express literally.",
+        "4/C19",
     ),
 }
 
@@ -31,8 +135,9 @@ NOT_YET = "check not built yet (work in progress); see DESIGN.md section 4 for t
 def main():
     props = [json.loads(l)["id"] for l in open(os.path.join(HERE, "properties.jsonl"))]
     checks = []
+    built = {pid for pid in CHECKS if os.path.exists(os.path.join(HERE, "vf", "props", pid.lower() + ".py"))}
     for pid in props:
-        if pid not in CHECKS:
+        if pid not in built:
             continue
         tech, text, note, ref = CHECKS[pid]
         checks.append(
@@ -71,7 +176,7 @@ def main():
         "checks": checks,
         "notes": "Property-based testing and fuzzing only. Known findings and repaired defects: /verif/known_findings.txt; "
         "committed replay witnesses: /verif/replays/<ID>/; seeded breaking changes used to test the checks: /verif/seeded/.",
-        "not_applicable": [{"property_id": p, "reason": NOT_YET} for p in props if p not in CHECKS],
+        "not_applicable": [{"property_id": p, "reason": NOT_YET} for p in props if p not in built],
     }
     path = os.path.join(HERE, "MANIFEST.json")
     with open(path, "w") as fh:
